@@ -184,9 +184,14 @@ pub fn gen(out: &mut dyn Write, which: &str, seed: u64, thorough: bool) {
             with_eci: false, with_empty: false, macro_pct: 3, roundtrip: false, long_inputs: true, ascii_enabled_only: false },
         "c19" => Opts { flags: "k", n_random: if t { 100000 } else { 6000 }, short_len: 3, short_cfgs: 2,
             with_eci: false, with_empty: false, macro_pct: 3, roundtrip: false, long_inputs: true, ascii_enabled_only: false },
+        "c10" => Opts { flags: "o", n_random: if t { 150000 } else { 9000 }, short_len: if t { 5 } else { 4 }, short_cfgs: 3,
+            with_eci: false, with_empty: false, macro_pct: 0, roundtrip: false, long_inputs: true, ascii_enabled_only: false },
         "c11" => Opts { flags: "t", n_random: if t { 300000 } else { 15000 }, short_len: if t { 5 } else { 4 }, short_cfgs: 3,
             with_eci: true, with_empty: true, macro_pct: 10, roundtrip: false, long_inputs: true, ascii_enabled_only: false },
         _ => panic!("unknown sweep"),
     };
+    // C10 compares with a list of known planner sub-optimalities identified by input: its case set
+    // is deterministic (independent of VERIF_SEED) so that the list stays exact
+    let seed = if which == "c10" { 1 } else { seed };
     sweep(out, seed ^ 0xE0C, &o);
 }
